@@ -1329,4 +1329,163 @@ theorem run_limits (evs : List Event) : ∀ s : State, (run s evs).limit = s.lim
     show (run (step s e) t).limit = _ ∧ (run (step s e) t).epLimit = _
     rw [(ih _).1, (ih _).2]; exact step_limits s e
 
+/-- a path has waiters only while all its slots are taken -/
+def QFull (s : State) : Prop := ∀ k ep, s.eps k = some ep → ep.queue ≠ [] → ep.counter = s.epLimit
+
+theorem QFull_of_eps {s s' : State} (h : QFull s) (he : s'.eps = s.eps) (hl : s'.epLimit = s.epLimit) : QFull s' := by
+  intro k ep hk hq; rw [he] at hk; rw [hl]; exact h k ep hk hq
+
+theorem semNotify_eps (s : State) : (semNotify s).eps = s.eps ∧ (semNotify s).epLimit = s.epLimit := ⟨rfl, rfl⟩
+
+theorem semAcquire_eps (s : State) (id : Id) : (semAcquire s id).eps = s.eps ∧ (semAcquire s id).epLimit = s.epLimit := by
+  unfold semAcquire; split
+  · exact ⟨rfl, rfl⟩
+  · split <;> exact ⟨rfl, rfl⟩
+
+theorem semCancel_eps (s : State) (id : Id) : (semCancel s id).eps = s.eps ∧ (semCancel s id).epLimit = s.epLimit := by
+  unfold semCancel; split
+  · exact ⟨rfl, rfl⟩
+  · simp only; split <;> exact ⟨rfl, rfl⟩
+
+theorem QFull_epRegister {s : State} (h : QFull s) (hle : ∀ k ep, s.eps k = some ep → ep.counter ≤ s.epLimit)
+    (id : Id) (k : Key) : QFull (epRegister s id k) := by
+  unfold epRegister
+  cases he : s.eps k with
+  | none =>
+    intro k' ep' hk' hq
+    by_cases hkk : k' = k
+    · subst hkk
+      have : upd s.eps k' (some ⟨1, []⟩) k' = some ep' := hk'
+      rw [upd_same] at this; injection this with this; subst this
+      exact absurd rfl hq
+    · have : upd s.eps k (some ⟨1, []⟩) k' = some ep' := hk'
+      rw [upd_other _ _ _ _ hkk] at this
+      exact h k' ep' this hq
+  | some ep =>
+    simp only
+    split
+    · rename_i hlt
+      intro k' ep' hk' hq
+      by_cases hkk : k' = k
+      · subst hkk
+        have : upd s.eps k' (some { ep with counter := ep.counter + 1 }) k' = some ep' := hk'
+        rw [upd_same] at this; injection this with this; subst this
+        have := h k' ep he hq
+        show ep.counter + 1 = s.epLimit
+        omega
+      · have : upd s.eps k (some { ep with counter := ep.counter + 1 }) k' = some ep' := hk'
+        rw [upd_other _ _ _ _ hkk] at this
+        exact h k' ep' this hq
+    · rename_i hlt
+      intro k' ep' hk' hq
+      by_cases hkk : k' = k
+      · subst hkk
+        have : upd s.eps k' (some { ep with queue := ep.queue ++ [id] }) k' = some ep' := hk'
+        rw [upd_same] at this; injection this with this; subst this
+        have := hle k' ep he
+        show ep.counter = s.epLimit
+        omega
+      · have : upd s.eps k (some { ep with queue := ep.queue ++ [id] }) k' = some ep' := hk'
+        rw [upd_other _ _ _ _ hkk] at this
+        exact h k' ep' this hq
+
+theorem QFull_epRelease {s : State} (h : QFull s) (k : Key) : QFull (epRelease s k) := by
+  unfold epRelease
+  cases he : s.eps k with
+  | none => exact h
+  | some ep =>
+    simp only
+    cases hq : ep.queue with
+    | cons w t =>
+      intro k' ep' hk' hq'
+      by_cases hkk : k' = k
+      · subst hkk
+        have : upd s.eps k' (some { ep with queue := t }) k' = some ep' := hk'
+        rw [upd_same] at this; injection this with this; subst this
+        exact h k' ep he (by rw [hq]; simp)
+      · have : upd s.eps k (some { ep with queue := t }) k' = some ep' := hk'
+        rw [upd_other _ _ _ _ hkk] at this
+        exact h k' ep' this hq'
+    | nil =>
+      simp only
+      split
+      · intro k' ep' hk' hq'
+        by_cases hkk : k' = k
+        · subst hkk
+          have : upd s.eps k' none k' = some ep' := hk'
+          simp at this
+        · have : upd s.eps k none k' = some ep' := hk'
+          rw [upd_other _ _ _ _ hkk] at this
+          exact h k' ep' this hq'
+      · intro k' ep' hk' hq'
+        by_cases hkk : k' = k
+        · subst hkk
+          have : upd s.eps k' (some ⟨ep.counter - 1, []⟩) k' = some ep' := hk'
+          rw [upd_same] at this; injection this with this; subst this
+          exact absurd rfl hq'
+        · have : upd s.eps k (some ⟨ep.counter - 1, []⟩) k' = some ep' := hk'
+          rw [upd_other _ _ _ _ hkk] at this
+          exact h k' ep' this hq'
+
+theorem QFull_epCancel {s : State} (h : QFull s) (id : Id) : QFull (epCancel s id) := by
+  unfold epCancel
+  simp only
+  cases he : s.eps (s.key id) with
+  | none => exact h
+  | some ep =>
+    simp only
+    split
+    · intro k' ep' hk' hq'
+      by_cases hkk : k' = s.key id
+      · subst hkk
+        have : upd s.eps (s.key id) (some { ep with queue := ep.queue.erase id }) (s.key id) = some ep' := hk'
+        rw [upd_same] at this; injection this with this; subst this
+        apply h _ ep he
+        intro hh
+        apply hq'
+        show ep.queue.erase id = []
+        rw [hh]; rfl
+      · have : upd s.eps (s.key id) (some { ep with queue := ep.queue.erase id }) k' = some ep' := hk'
+        rw [upd_other _ _ _ _ hkk] at this
+        exact h k' ep' this hq'
+    · exact h
+
+theorem QFull_step {s : State} (hI : Inv s) (h : QFull s) (ev : Event) : QFull (step s ev) := by
+  have hle : ∀ k ep, s.eps k = some ep → ep.counter ≤ s.epLimit := fun k ep hk => (hI.ep.some_ k ep hk).2.2.1
+  cases ev with
+  | arrive id k =>
+    simp only [step]
+    split
+    · exact QFull_epRegister (s := { s with key := upd s.key id k, ids := s.ids ++ [id] }) h hle id k
+    · exact h
+  | cancel id => exact h
+  | finish id =>
+    simp only [step]
+    split
+    · exact h
+    · exact h
+  | step id br =>
+    cases hp : s.pc id <;> cases br <;> simp only [step, hp]
+    all_goals first
+      | exact h
+      | exact QFull_of_eps h (semAcquire_eps s id).1 (semAcquire_eps s id).2
+      | exact QFull_epRelease h (s.key id)
+      | exact QFull_of_eps h rfl rfl
+      | (split
+         · first
+           | exact QFull_epCancel h id
+           | exact QFull_of_eps h (semCancel_eps s id).1 (semCancel_eps s id).2
+           | exact QFull_of_eps h rfl rfl
+         · first
+           | exact h
+           | exact QFull_of_eps h rfl rfl)
+
+theorem QFull_reachable (limit epLimit : Int) (evs : List Event) : QFull (run (init limit epLimit) evs) := by
+  have key : ∀ (evs : List Event) (s : State), Inv s → QFull s → QFull (run s evs) := by
+    intro evs
+    induction evs with
+    | nil => intro s _ h; exact h
+    | cons e t ih => intro s hI h; exact ih (step s e) (Inv_step hI e) (QFull_step hI h e)
+  exact key evs _ (Inv_init limit epLimit) (by intro k ep hk; simp [init] at hk)
+
 end CoapVerif.Lemmas.Limiter
